@@ -33,7 +33,8 @@ Accept(e) ==
   ELSE TRUE
 
 StepState(e) ==
-  IF e.a = "bind" THEN Put(e.s, [c |-> [rate |-> e.rate], x |-> RFresh])
+  IF e.a = "bind" THEN Put(e.s, [c |-> [rate |-> e.rate],
+                                  x |-> [RFresh EXCEPT !.total = IF "lost0" \in DOMAIN e THEN e.lost0 ELSE 0]])
   ELSE IF e.a = "unbind" THEN Del(e.s)
   ELSE IF e.a = "rtp" /\ e.s \in DOMAIN st
        THEN Put(e.s, [c |-> st[e.s].c, x |-> RtpStep(st[e.s].c, st[e.s].x, e.w, e.ts, e.t)])
